@@ -822,6 +822,7 @@ impl World {
                     tr.push(vec![4, t, e, c, 2, conn.accepted_0rtt() as i128, app.early_started as i128]);
                     if app.is_client && app.early_started && !conn.accepted_0rtt() {
                         // early data rejected: everything starts over on a fresh connection state
+                        tr.push(vec![13, t, 7, c]);
                         app.want_bidi = self_nbidi;
                         app.want_uni = self_nuni;
                         app.out.clear();
